@@ -220,6 +220,17 @@ def oracle(case, ires, sres):
             if ires[1] != b[:n]:
                 return ("C02/PusTc.unpack-pack/roundtrip", "re-pack %s != accepted octets %s" % (ires[1][:20], b[:n][:20]))
         return None
+    if op == 507:
+        service, subservice, apid, seq, source_id, ack = a[0]
+        if valid_args([a[0], a[2]]) and valid_args(a):
+            exp = pc.tc_layout(service, subservice, apid, seq, source_id, ack, a[2])
+            if err:
+                return ("C11/PusTc.app_data/raises", "setter then pack raised %s" % (ires,))
+            if ires[1] != exp:
+                return ("C11/PusTc.app_data/stale-length", "after app_data := %d octets pack gives %s, a fresh TC gives %s" % (len(a[2]), ires[1][:16], exp[:16]))
+            if ires[2] != [len(exp)]:
+                return ("C11/PusTc.app_data/stale-length", "after app_data := %d octets packet_len = %s but %d octets are packed" % (len(a[2]), ires[2], len(ires[1])))
+        return None
     if op == 506:
         if ires[1] != [int(pc.crc16(a[0]) == 0)]:
             return ("C02/check_pus_crc", "%s -> %s" % (a[0][:16], ires))
